@@ -13,13 +13,14 @@ import (
 	"fmt"
 	"strconv"
 	"strings"
+	"time"
 
 	"github.com/blinklabs-io/gouroboros/kes"
 	"golang.org/x/crypto/blake2b"
 )
 
 func init() {
-	register(&Prop{ID: "C39", Gen: genC39, Run: runC39})
+	register(&Prop{ID: "C39", Gen: genC39, Run: runC39, Timeout: 3 * time.Minute})
 }
 
 // ---- primitives (definitions, not the KES algorithm)
